@@ -199,6 +199,10 @@ func (rpt *Report) selectOutputUnit(g *graph.Graph) {
 		if nodeMin == 0 {
 			nodeMin = abs64(n.CumValue())
 		}
+		if r := o.Ratio; r > 0 && r != 1 && int64(float64(nodeMin)*r) == 0 {
+			// Divided down to zero by divide_by: printed as 0 in any unit.
+			continue
+		}
 		if nodeMin > 0 && (minValue == 0 || nodeMin < minValue) {
 			minValue = nodeMin
 		}
